@@ -2501,3 +2501,20 @@ package otto
 //@   ensures hg && vg.kind != valueUndefined ==> is(result.value, propertyGetSet) && is(vg.value, *object) && result.value.(propertyGetSet)[0] == vg.value.(*object)
 //@   ensures !hs && hg ==> result.value.(propertyGetSet)[1] == nil
 //@   ensures !hg && hs ==> result.value.(propertyGetSet)[0] == nil
+
+// Function objects: every descriptor handed to [[DefineOwnProperty]] is well-formed - in
+// particular the caller accessor carries no [[Writable]] attribute - and a stored property
+// is turned into a descriptor object without ever mistaking an accessor for a data property.
+//@ func (*runtime).newNodeFunctionObject
+//@   props C07 C02
+//@   nosafety
+//@   at_call (*object).defineOwnProperty : wfDescriptor(arg2)
+//@ func (*runtime).newNativeFunctionObject
+//@   props C07 C02
+//@   nosafety
+//@   abstract_callee (*object).defineOwnProperty
+//@   at_call (*object).defineOwnProperty : wfDescriptor(arg2)
+//@ func (*runtime).fromPropertyDescriptor
+//@   props C07
+//@   safety C02 C07
+//@   requires rt != nil && wfStored(descriptor)
